@@ -6,6 +6,7 @@ CONSTANTS
   DelimKinds = {"nl", "c1", "R3", "a12"}
   HostDelimKinds = {"nl", "c1", "R3", "a12", "a11"}
   WithNoop = TRUE
+  WithLim = TRUE
   Codecs = {"bytes", "json"}
   PayAlpha = {1}
   MaxPay = 2
